@@ -1114,6 +1114,29 @@ def from_residual(I, st, fr, t, a):
     return conv(v), st
 
 
+@summary('<std::option::Option<T> as std::ops::Try>::branch')
+def opt_try_branch(I, st, fr, t, a):
+    ty = ret_ty(I, fr, t) or 'std::ops::ControlFlow'
+
+    def conv(v):
+        if isinstance(v, Enum):
+            if v.var == 1:
+                return Enum(ty, 0, (v.fields[0],))          # Continue(val)
+            return Enum(ty, 1, (Enum(OPT, 0),))            # Break(None)
+        if isinstance(v, Ite):
+            return Ite(v.c, conv(v.a), conv(v.b))
+        raise from_undecided()('Try::branch on %r' % (v,))
+    v = a[0]
+    if isinstance(v, Tok):
+        v = I.fresh_value(v.name, v.ty)
+    return conv(v), st
+
+
+@summary('<std::option::Option<T> as std::ops::FromResidual<std::option::Option<std::convert::Infallible>>>::from_residual')
+def opt_from_residual(I, st, fr, t, a):
+    return none(ret_ty(I, fr, t) or OPT), st
+
+
 def fmt_write(I, st, fr, t, a):
     ty = ret_ty(I, fr, t) or 'std::result::Result'
     at = B.atom('tokbool', 'fmt-err%d' % next(I.frame_counter))
@@ -1392,12 +1415,49 @@ TABLE['std::iter::Iterator::all'] = _any_all(False)
 
 @summary('std::iter::Iterator::fold')
 def iter_fold(I, st, fr, t, a):
-    vals, st = _items_for_consumer(I, st, a[0])
+    items, st = drain(I, st, a[0])
     acc = a[1]
-    for v in vals:
-        acc, st = I.call_closure(st, a[2], [acc, v])
-        if st is None:
-            return BOTTOM, None
+    for item in items:
+        gate = C1
+        cur = item
+        while cur[0] in ('cond', 'filtered'):
+            gate = B.band(gate, cur[1])
+            cur = cur[2]
+        if cur[0] == 'elem':
+            r, st2 = I.call_closure(st, a[2], [acc, cur[1]])
+            if st2 is None:
+                if gate is C1:
+                    return BOTTOM, None
+                raise from_undecided()('fold closure diverges on a conditional item')
+            acc = r if gate is C1 else I.merge(gate, r, acc)
+            st = st2
+            continue
+        if cur[0] == 'bulk':
+            # one symbolic iteration: the accumulator may only change by XOR-ing terms linear in the bulk index
+            before = dict(st.store)
+            r, st2 = I.call_closure(st, a[2], [acc, cur[2]])
+            if st2 is None:
+                raise from_undecided()('fold closure diverges on a bulk item')
+            changed = [c for c, v in st2.store.items() if c in before and before[c] is not v and c[0] != 'static']
+            if changed:
+                raise from_undecided()('fold closure over a symbolic bulk has side effects')
+            hp, hn = I.as_hf(acc), I.as_hf(r)
+            if hp is None or hn is None:
+                raise from_undecided()('fold over a symbolic bulk: accumulator is not a hash form')
+            delta = hn.xor(hp)
+            bv = cur[1]
+            out = []
+            for sym, g in delta.terms:
+                if sym[0] in ('SQ', 'PUSH', 'PULL') and isinstance(sym[2], Term) and sym[2].kind == 'sigma':
+                    g2 = B.band(g, gate)
+                    gated = bv if g2 is C1 else BV([B.band(g2, x) for x in bv.bits])
+                    out.append(((sym[0] + 'B', sym[1], gated), C1))
+                else:
+                    raise from_undecided()('fold over a symbolic bulk: change not linear in the bulk index')
+            acc = hp.xor(HF(out))
+            st = st2
+            continue
+        raise from_undecided()('fold over item %r' % (cur[0],))
     return acc, st
 
 
